@@ -12,10 +12,12 @@ nested bins are nested JSON arrays of such numbers.
 Requests -> replies (`{"e":name}` stands for a raised exception everywhere):
   {"op":"mk_hist","edges":edges,"bins":nested|null,"init":q}             -> {"h":hist}
   {"op":"integral","bins":nested,"edges":edges}                          -> {"r":q}
-  {"op":"hist_scale","h":hist,"other":q|null,"recompute":bool}           -> {"h":hist,"r":q|null} | {"e":name,"h":hist}
+  {"op":"hscale","h":hist,"other":q}     (scale(); scale(other); scale(recompute=True); scale())
+      -> {"scale0":q|{"e":..},"after":hist,"recomputed":q|{"e":..},"get":q} | {"scale0":..,"e":name,"after":hist}
+  {"op":"hist_scale","h":hist,"recompute":bool}                          -> {"h":hist,"r":q} | {"e":name,"h":hist}
   {"op":"add","a":hist,"b":hist,"w":q,"rel":q,"abs":q}                   -> {"h":hist}
-  {"op":"nevents","h":hist,"incl":bool}                                  -> {"r":q}
-  {"op":"set_nevents","h":hist,"n":q,"incl":bool}                        -> {"h":hist}
+  {"op":"nevents","h":hist,"n":q|null,"incl":bool}     (get_nevents(False), get_nevents(True); set_nevents(n, incl); get_nevents(incl))
+      -> {"nev_in":q,"nev_all":q[,"after":hist,"nev_after":q | ,"e":name]}
   {"op":"iter","h":hist,"ranges":[[lo|null,up|null],..]|null}
       -> {"bins":[[idx,q],..],"bwe":[[content,[[lo,hi],..]],..]|{"e":..},"cells":[[edges,content,idx],..]|{"e":..}}
   {"op":"hist_to_graph","h":hist,"mv":null|"double"|"pair"|"triple","mode":str,"fields":names,"scale":null|true|q}
@@ -96,7 +98,7 @@ def parseNames (j : Json) : Option FieldNamesArg :=
       let l ← a.toList.mapM str?
       pure (.tuple (l.map String.toList))
 
-def nameJson (n : Name) : Json := Json.str (String.ofList n)
+def nameJson (n : C12.Name) : Json := Json.str (String.ofList n)
 
 def gstateJson (g : Graph) : Json :=
   Json.mkObj [("coords", ofList (ofList ratJson) g.coords), ("names", ofList nameJson g.fieldNames),
@@ -180,17 +182,30 @@ def handle (j : Json) : Json :=
       | .ok r => Json.mkObj [("r", ratJson r)]
       | .error er => excObj er
     | _, _ => err "bad integral args"
+  | some "hscale" =>
+    match parseHist (getD j "h"), rat? (getD j "other") with
+    | some h, some o =>
+      let scale0 := match getScale h false with
+        | .ok (_, s) => ratJson s
+        | .error er => excObj er
+      match setScale h o with
+      | .ok h1 =>
+        let rec1 := match getScale h1 true with
+          | .ok (_, s) => ratJson s
+          | .error er => excObj er
+        let get1 := match getScale h1 false with
+          | .ok (_, s) => ratJson s
+          | .error er => excObj er
+        Json.mkObj [("scale0", scale0), ("after", histJson h1), ("recomputed", rec1), ("get", get1)]
+      | .error er => Json.mkObj [("scale0", scale0), ("e", exc er), ("after", histJson (cacheScale h))]
+    | _, _ => err "bad hscale args"
   | some "hist_scale" =>
-    match parseHist (getD j "h"), optRat (getD j "other"), bool? (getD j "recompute") with
-    | some h, some none, some rc =>
+    match parseHist (getD j "h"), bool? (getD j "recompute") with
+    | some h, some rc =>
       match getScale h rc with
       | .ok (h1, s) => Json.mkObj [("h", histJson h1), ("r", ratJson s)]
       | .error er => Json.mkObj [("e", exc er), ("h", histJson h)]
-    | some h, some (some o), some _ =>
-      match setScale h o with
-      | .ok h1 => Json.mkObj [("h", histJson h1), ("r", Json.null)]
-      | .error er => Json.mkObj [("e", exc er), ("h", histJson (cacheScale h))]
-    | _, _, _ => err "bad hist_scale args"
+    | _, _ => err "bad hist_scale args"
   | some "add" =>
     match parseHist (getD j "a"), parseHist (getD j "b"), rat? (getD j "w"), rat? (getD j "rel"), rat? (getD j "abs") with
     | some a, some b, some w, some rel, some ab =>
@@ -199,16 +214,16 @@ def handle (j : Json) : Json :=
       | .error er => excObj er
     | _, _, _, _, _ => err "bad add args"
   | some "nevents" =>
-    match parseHist (getD j "h"), bool? (getD j "incl") with
-    | some h, some i => Json.mkObj [("r", ratJson (getNevents h i))]
-    | _, _ => err "bad nevents args"
-  | some "set_nevents" =>
-    match parseHist (getD j "h"), rat? (getD j "n"), bool? (getD j "incl") with
+    match parseHist (getD j "h"), optRat (getD j "n"), bool? (getD j "incl") with
     | some h, some n, some i =>
-      match setNevents h n i with
-      | .ok h1 => Json.mkObj [("h", histJson h1)]
-      | .error er => excObj er
-    | _, _, _ => err "bad set_nevents args"
+      let base := [("nev_in", ratJson (getNevents h false)), ("nev_all", ratJson (getNevents h true))]
+      match n with
+      | none => Json.mkObj base
+      | some n =>
+        match setNevents h n i with
+        | .ok h1 => Json.mkObj (base ++ [("after", histJson h1), ("nev_after", ratJson (getNevents h1 i))])
+        | .error er => Json.mkObj (base ++ [("e", exc er)])
+    | _, _, _ => err "bad nevents args"
   | some "iter" =>
     match parseHist (getD j "h"), parseRanges (getD j "ranges") with
     | some h, some rg =>
